@@ -250,6 +250,24 @@ pub fn child(args: &Args) -> i32 {
         result["frozen_after_freeze"] = json!(fnum(&node));
         result["answers_after_freeze"] = json!(node_answers(node.shared.store(), q));
         marker.mark("child-end");
+    } else if mode == "enospc" {
+        // I/O fault episode: `ancient/` is a size-limited tmpfs (mounted by the parent); the first
+        // pass runs out of space somewhere inside the freezer's appends, then the file system is
+        // enlarged (remount) and the next pass has to finish the job
+        let mnt = args.get_str("mnt").expect("mnt=").to_string();
+        result["answers_after_open"] = json!(node_answers(node.shared.store(), q));
+        result["frozen_after_open"] = json!(fnum(&node));
+        let e1 = node.shared.verif_freeze_once().err().map(|e| e.to_string());
+        result["pass1_error"] = json!(e1);
+        result["frozen_after_pass1"] = json!(fnum(&node));
+        result["answers_after_pass1"] = json!(node_answers(node.shared.store(), q));
+        result["answers_after_pass1_via_snapshot"] = json!(node_answers(&node.shared.store().get_snapshot(), q));
+        let st = Command::new("mount").args(["-o", "remount,size=64m", &mnt]).status();
+        result["remount_ok"] = json!(st.map(|s| s.success()).unwrap_or(false));
+        let e2 = node.shared.verif_freeze_once().err().map(|e| e.to_string());
+        result["pass2_error"] = json!(e2);
+        result["frozen_after_pass2"] = json!(fnum(&node));
+        result["answers_after_pass2"] = json!(node_answers(node.shared.store(), q));
     } else {
         // the view block verification and the script data loader use: a store transaction (first,
         // with cold caches), then the store itself
@@ -309,11 +327,15 @@ pub fn child(args: &Args) -> i32 {
 // parent
 
 fn run_child(mode: &str, db: &Path, history: &Path, out: &Path, freezer: bool, crash_at: Option<(u64, bool)>) -> (Option<Value>, String) {
+    run_child_ex(mode, db, history, out, freezer, crash_at, &[])
+}
+
+fn run_child_ex(mode: &str, db: &Path, history: &Path, out: &Path, freezer: bool, crash_at: Option<(u64, bool)>, extra: &[String]) -> (Option<Value>, String) {
     let _ = std::fs::remove_file(out);
     let exe = std::env::current_exe().unwrap();
     let mut cmd = Command::new(exe);
-    cmd.arg("freeze-child")
-        .arg(format!("mode={mode}"))
+    cmd.args(["freeze-child"]).args(extra);
+    cmd.arg(format!("mode={mode}"))
         .arg(format!("db={}", db.display()))
         .arg(format!("history={}", history.display()))
         .arg(format!("out={}", out.display()))
@@ -515,6 +537,116 @@ fn sync_monitor(r: &mut Report, scratch: &vbase::Scratch, pristine: &Path, histo
     res
 }
 
+/// (bytes, 4 KiB pages) of the regular files in a directory (a tmpfs accounts whole pages per file)
+fn dir_bytes(p: &Path) -> (u64, u64) {
+    let (mut n, mut pages) = (0, 0);
+    if let Ok(rd) = std::fs::read_dir(p) {
+        for e in rd.flatten() {
+            if let Ok(m) = e.metadata() {
+                if m.is_file() {
+                    n += m.len();
+                    pages += m.len().div_ceil(4096);
+                }
+            }
+        }
+    }
+    (n, pages)
+}
+
+fn umount(p: &Path) {
+    let _ = Command::new("umount").arg(p).stdout(std::process::Stdio::null()).stderr(std::process::Stdio::null()).status();
+}
+
+/// I/O fault episode (ENOSPC inside a freeze pass). `ancient/` of a copy of the pristine database
+/// becomes a tmpfs whose size lets only a part of the pass through (sizes measured on the regular
+/// freeze run: `a0` bytes before, `a1` after); the child runs the failing pass, enlarges the file
+/// system, runs the next pass; a third process restarts on the result. Returns false when the
+/// sandbox does not allow mounting (episode skipped).
+#[allow(clippy::too_many_arguments)]
+fn enospc_episode(r: &mut Report, rng: &mut Rng, scratch: &vbase::Scratch, pristine: &Path, history: &Path, out: &Path, hi: u64, a0: (u64, u64), a1: (u64, u64), frozen: u64, exp: &Answers, rc: &RefChain, side: &[H], wit0: &Value) -> bool {
+    let edb = scratch.join(&format!("h{hi}-enospc"));
+    copy_dir(pristine, &edb);
+    let anc = edb.join("ancient");
+    let keep = scratch.join(&format!("h{hi}-enospc-ancient"));
+    let _ = std::fs::remove_dir_all(&keep);
+    if anc.exists() {
+        copy_dir(&anc, &keep);
+        let _ = std::fs::remove_dir_all(&anc);
+    }
+    std::fs::create_dir_all(&anc).unwrap();
+    // pages the pass may fill beyond what is there: somewhere strictly inside the pass
+    let page = 4096u64;
+    let grow_pages = a1.1.saturating_sub(a0.1);
+    if grow_pages < 2 {
+        r.count("enospc.pass_too_small_for_a_page_boundary");
+        let _ = std::fs::remove_dir_all(&edb);
+        let _ = std::fs::remove_dir_all(&keep);
+        return false;
+    }
+    let allow = rng.below(grow_pages - 1);
+    let size = (a0.1 + allow) * page;
+    let st = Command::new("mount").args(["-t", "tmpfs", "-o", &format!("size={size}"), "tmpfs"]).arg(&anc).stderr(std::process::Stdio::null()).status();
+    if !st.map(|s| s.success()).unwrap_or(false) {
+        r.count("enospc.mount_not_permitted");
+        let _ = std::fs::remove_dir_all(&edb);
+        let _ = std::fs::remove_dir_all(&keep);
+        return false;
+    }
+    if keep.exists() {
+        copy_dir(&keep, &anc);
+    }
+    let wit = json!({"history": wit0, "ancient_bytes_and_pages_before": [a0.0, a0.1], "ancient_bytes_and_pages_after_a_full_pass": [a1.0, a1.1], "tmpfs_size": size});
+    let (c, err) = run_child_ex("enospc", &edb, history, out, true, None, &[format!("mnt={}", anc.display())]);
+    r.count("enospc.episodes");
+    match c {
+        None => {
+            // a panic / abort of the node inside or after the failing pass
+            r.violation("node_died_when_the_freezer_ran_out_of_space", err, wit.clone());
+        }
+        Some(c) => {
+            let f1 = c["frozen_after_pass1"].as_u64().unwrap_or(0);
+            let f2 = c["frozen_after_pass2"].as_u64().unwrap_or(0);
+            if c["pass1_error"].is_null() {
+                r.count("enospc.first_pass_fitted");
+            } else {
+                r.count("enospc.first_pass_failed_with_an_error");
+                if f1 > c["frozen_after_open"].as_u64().unwrap_or(0) {
+                    r.count("enospc.first_pass_failed_after_some_appends");
+                }
+            }
+            judge(&to_answers(&c["answers_after_pass1"]), exp, rc, side, f1, "after_a_pass_that_ran_out_of_space", &wit, r);
+            judge(&to_answers(&c["answers_after_pass1_via_snapshot"]), exp, rc, side, f1, "after_a_pass_that_ran_out_of_space_via_snapshot", &wit, r);
+            if c["remount_ok"].as_bool() != Some(true) {
+                r.inconclusive("harness: could not enlarge the tmpfs of an ENOSPC episode");
+            } else {
+                if let Some(e) = c["pass2_error"].as_str() {
+                    r.violation("pass_after_out_of_space_failed", format!("space is available again but the next pass returned: {e}"), wit.clone());
+                }
+                judge(&to_answers(&c["answers_after_pass2"]), exp, rc, side, f2, "after_out_of_space_and_next_pass", &wit, r);
+                if f2 != frozen {
+                    r.violation("next_pass_after_out_of_space_does_not_reach_same_end", format!("{f2} vs {frozen} (after the failing pass: {f1})"), wit.clone());
+                }
+                // restart on the result
+                let (s, err) = run_child("restart", &edb, history, out, true, None);
+                match s {
+                    None => r.violation("reopen_after_out_of_space_failed", err, wit.clone()),
+                    Some(s) => {
+                        judge(&to_answers(&s["answers_after_open"]), exp, rc, side, s["frozen_after_open"].as_u64().unwrap_or(0), "after_out_of_space_next_pass_and_restart", &wit, r);
+                        if s["frozen_after_open"].as_u64() != Some(f2) {
+                            r.violation("frozen_count_changed_by_restart", format!("{} -> {:?} (after an out-of-space episode)", f2, s["frozen_after_open"]), wit.clone());
+                        }
+                    }
+                }
+            }
+            r.distinct(vbase::fnv1a(format!("{hi}-enospc-{allow}-{f1}").as_bytes()));
+        }
+    }
+    umount(&anc);
+    let _ = std::fs::remove_dir_all(&edb);
+    let _ = std::fs::remove_dir_all(&keep);
+    true
+}
+
 fn copy_dir(src: &Path, dst: &Path) {
     let _ = std::fs::remove_dir_all(dst);
     std::fs::create_dir_all(dst).unwrap();
@@ -593,7 +725,7 @@ pub fn run(args: &Args) -> i32 {
         "C10",
         "fault_enumeration",
         args,
-        "chains of several tiny epochs with forks at heights that become frozen; answer vectors (block, packed block, header, body, tx hashes, cellbase, uncles, proposals, extension (also via the script data loader), transactions with location, ancestors, live cells) evaluated before freezing, concurrently with freezing, after freezing (warm caches), after restart (cold caches), after a second pass, after a crash at every durable write of the freeze / wipe-out sequence, after a pass cut short by the stop flag plus the completing pass, and without freezer, each compared with the answers derived from the RefChain model; syscall level (freeze child under strace, page-cache model per file): once a pass (complete or cut short by the stop flag from another thread) has written to the RocksDB WAL, no file under db/ is fsynced while ancient/INDEX or ancient/blk* holds unsynced writes; distinct = (history, stage, crash point) answer vectors judged",
+        "chains of several tiny epochs with forks at heights that become frozen; answer vectors (block, packed block, header, body, tx hashes, cellbase, uncles, proposals, extension (also via the script data loader), transactions with location, ancestors, live cells) evaluated before freezing, concurrently with freezing, after freezing (warm caches), after restart (cold caches), after a second pass, after a crash at every durable write of the freeze / wipe-out sequence, after a pass cut short by the stop flag plus the completing pass, after a pass that ran out of disk space inside the freezer's appends (ancient/ on a size-limited tmpfs) plus the next pass once space is back plus a restart, and without freezer, each compared with the answers derived from the RefChain model; syscall level (freeze child under strace, page-cache model per file): once a pass (complete or cut short by the stop flag from another thread) has written to the RocksDB WAL, no file under db/ is fsynced while ancient/INDEX or ancient/blk* holds unsynced writes; distinct = (history, stage, crash point) answer vectors judged",
     );
     let mut rng = Rng::new(args.seed ^ 0xF10);
     let scratch = vbase::Scratch::new("freeze");
@@ -677,7 +809,9 @@ pub fn run(args: &Args) -> i32 {
         let pristine = scratch.join(&format!("h{hi}-pristine"));
         copy_dir(&db, &pristine);
         // ---- freeze
+        let ancient_before = dir_bytes(&db.join("ancient"));
         let (f, err) = run_child("freeze", &db, &file, &out, true, None);
+        let ancient_after = dir_bytes(&db.join("ancient"));
         let Some(f) = f else {
             r.violation("freeze_pass_failed", format!("freeze child did not complete: {err}"), wit0.clone());
             continue;
@@ -724,6 +858,14 @@ pub fn run(args: &Args) -> i32 {
                 r.distinct(vbase::fnv1a(format!("{hi}-restart").as_bytes()));
                 if s["frozen_after_open"].as_u64() != Some(frozen) {
                     r.violation("frozen_count_changed_by_restart", format!("{} -> {:?}", frozen, s["frozen_after_open"]), wit0.clone());
+                }
+            }
+        }
+        // ---- I/O fault: the freezer's file system runs full inside a pass
+        if threshold > 0 && frozen > 2 && ancient_after.0 > ancient_before.0 {
+            for _ in 0..args.tier.pick(2, 4) {
+                if !enospc_episode(&mut r, &mut rng.fork(0xE05 + hi), &scratch, &pristine, &file, &out, hi, ancient_before, ancient_after, frozen, &exp, rc, &side, &wit0) {
+                    break;
                 }
             }
         }
@@ -802,6 +944,11 @@ pub fn run(args: &Args) -> i32 {
     r.require("histories_with_frozen_blocks", 1);
     r.require("crashes_injected", 2);
     r.require("reader_vectors", 1);
+    if r.counter("enospc.mount_not_permitted") == 0 {
+        r.require("enospc.first_pass_failed_with_an_error", 1);
+    } else {
+        r.assume("the sandbox did not permit mounting a tmpfs: the out-of-space episodes were skipped");
+    }
     // durability-order monitor: a run that saw no interrupted pass / no synced key-value write says nothing
     r.require("sync.strace_runs", args.tier.pick(1, 6));
     r.require("sync.syscalls_parsed", args.tier.pick(200, 2000));
